@@ -76,11 +76,14 @@ def install():
 
 def job_to_pv(job, job_name="job", ids="uuid", rng=None, job_id=None,
               base_ts=0):
-    """PVEvent dicts of one reference job.  ids: 'uuid' | 'short' | 'long'"""
+    """PVEvent dicts of one reference job.  ids: 'uuid' | 'short' | 'long' | 'local' (event ids 1..n in every job)"""
     rng = rng or SCHED.rng
 
     def new_id(i):
-        if ids == "short":
+        if ids == "local" and i >= 0:
+            # unique inside the job only: the same ids recur in every job
+            return str(i + 1)
+        if ids == "short" or ids == "local":
             return str(rng.getrandbits(40))
         if ids == "long":
             return "id-" + hashlib.sha1(
